@@ -170,8 +170,66 @@ def pressure(draw, lo_dec=-2, hi_dec=2):
 
 
 @st.composite
+def multi_strategy(draw):
+    """2-4 NEW gas phases with different user numbers (own composition, pressure, temperature, volume, type, ideal or
+    Peng-Robinson, optional -equilibrate with one of two solutions) defined in ONE simulation, each then reacted in a
+    simulation of its own with the solution it names: per-entity data must not leak from one definition to the next"""
+    db = draw(st.sampled_from(["phreeqc.dat", "phreeqc.dat", "phreeqc.dat", "pitzer.dat", "core10.dat", "wateq4f.dat"]))
+    sols = []
+    for num in (1, 2):
+        sol = draw(cg.simple_solution(num, elements=SOL_ELEMENTS, max_el=3, temp=False, charge=False))
+        sol["temp"] = draw(temperature())
+        sols.append(sol)
+    custom = []
+    if db == "phreeqc.dat" and draw(st.booleans()):
+        for k, ti in enumerate(draw(st.lists(st.sampled_from(range(len(CUSTOM))), min_size=1, max_size=2, unique=True))):
+            custom.append({"name": CUSTOM_NAMES[k], "tpl": ti})            # no critical constants: ideal
+    taken = {CUSTOM[g["tpl"]][0] for g in custom}
+    same = {"CO2 = CO2": "CO2(g)", "Mtg = Mtg": "Mtg(g)", "Ntg = Ntg": "Ntg(g)", "Oxg = Oxg": "Oxg(g)", "Hdg = Hdg": "Hdg(g)"}
+    pool = [g for g in DBS[db] if g != "H2O(g)" and g not in {same[t] for t in taken}]
+    inert = [g for g in pool if g in ("CO2(g)", "Mtg(g)", "Ntg(g)", "Oxg(g)", "Hdg(g)", "H2Sg(g)")]
+    numbers = draw(st.lists(st.integers(1, 9), min_size=2, max_size=4, unique=True))
+    phases = []
+    for num in numbers:
+        if custom and draw(st.integers(0, 2)) == 0:
+            names = [g["name"] for g in custom]
+        else:
+            names = draw(st.lists(st.sampled_from(inert if inert and draw(st.integers(0, 3)) else pool), min_size=1, max_size=3, unique=True))
+        typ = draw(st.sampled_from(["P", "V"]))
+        gp = {"number": num, "type": typ, "temp": draw(temperature()), "use": draw(st.sampled_from([1, 2]))}
+        ptot = draw(st.one_of(pressure(0, 2), pressure(-1, 2)))
+        if typ == "P":
+            gp["pressure"] = ptot
+        vmax = min(20.0, 20.0 * 0.0820597 * (gp["temp"] + 273.15) / ptot)
+        gp["volume"] = draw(cg.logu(min(0.01, vmax / 10), vmax, 3))
+        if typ == "P":
+            gp["volume"] = max(min(gp["volume"], 5.0), min(0.05, vmax))
+        gp["equilibrate"] = typ == "V" and all(n in EXTRA_SOL or n == "CO2(g)" for n in names) and draw(st.integers(0, 4)) == 0
+        # every listed component gets a positive partial pressure: a component that is listed but absent from the system keeps
+        # the partial pressure of an EARLIER calculation in the engine's fixed-pressure sum (recorded finding,
+        # replays/C19/known/stale-absent-component-pressure.json); in a single-simulation case there is no earlier calculation
+        w = [draw(st.integers(1, 20)) for _ in names]
+        gp["comps"] = [[n, float("%.4g" % (ptot * wi / sum(w)))] for n, wi in zip(names, w)]
+        if gp["equilibrate"]:
+            sol = sols[gp["use"] - 1]
+            have = {c[0] for c in sol["comps"]}
+            for n in names:
+                e = EXTRA_SOL.get(n, "C(4)")
+                if e not in have:
+                    sol["comps"].append([e, draw(cg.logu(1e-3, 2e-2, 3)), ""])
+                    have.add(e)
+        phases.append(gp)
+    order = draw(st.permutations(range(len(phases))))          # order of the blocks in the input != order of user numbers
+    parts = {"kind": "multi", "db": db, "sol": sols[0], "sols": sols, "custom": custom, "phases": phases, "order": list(order),
+             "kij": [], "minerals": [], "reaction": None, "rtemp": None}
+    return finish(parts)
+
+
+@st.composite
 def case_strategy(draw):
-    kind = draw(st.sampled_from(["gp", "gp", "gp", "gp", "equi"]))
+    kind = draw(st.sampled_from(["gp", "gp", "gp", "gp", "equi", "multi"]))
+    if kind == "multi":
+        return draw(multi_strategy())
     db = draw(st.sampled_from(["phreeqc.dat", "phreeqc.dat", "phreeqc.dat", "pitzer.dat", "pitzer.dat", "wateq4f.dat", "core10.dat"]))
     tc = draw(temperature())
     sol = draw(cg.simple_solution(1, elements=SOL_ELEMENTS, max_el=4, temp=False, charge=False))
@@ -306,6 +364,11 @@ def case_strategy(draw):
 def gas_names(parts):
     if parts["kind"] == "equi":
         return [e[0] for e in parts["equi"]]
+    if parts["kind"] == "multi":
+        out = []
+        for gp in parts["phases"]:
+            out += [c[0] for c in gp["comps"] if c[0] not in out]
+        return out
     return [c[0] for c in parts["gp"]["comps"]]
 
 
@@ -325,6 +388,20 @@ def tracked_elements(parts):
     return els
 
 
+def render_gas_phase(gp, number=1, eq_solution=1):
+    L = ["GAS_PHASE %d" % number]
+    L.append(" -fixed_pressure" if gp["type"] == "P" else " -fixed_volume")
+    if gp["type"] == "P":
+        L.append(" -pressure %s" % cg.fmt(gp["pressure"]))
+    L.append(" -volume %s" % cg.fmt(gp["volume"]))
+    L.append(" -temperature %s" % cg.fmt(gp["temp"]))
+    if gp["equilibrate"]:
+        L.append(" -equilibrate %d" % eq_solution)
+    for n, p0 in gp["comps"]:
+        L.append(" %s %s" % (n, "" if gp["equilibrate"] else cg.fmt(p0)))
+    return L
+
+
 def finish(parts):
     """render the input text; the case keeps the structure (for the oracle) and the text (what is run)"""
     # DESIGN section 4 rule 2: the solver's own tolerance is set far below the property's; only the registered
@@ -342,9 +419,17 @@ def finish(parts):
         L.append("GAS_BINARY_PARAMETERS")
         for a, b, k in parts["kij"]:
             L.append(" %s %s %s" % (a, b, cg.fmt(k)))
-    L.append(cg.render_solution(parts["sol"]))
+    if parts["kind"] == "multi":
+        for sol in parts["sols"]:
+            L.append(cg.render_solution(sol))
+    else:
+        L.append(cg.render_solution(parts["sol"]))
     names = gas_names(parts)
-    if parts["kind"] == "equi":
+    if parts["kind"] == "multi":
+        for k in parts["order"]:
+            gp = parts["phases"][k]
+            L += render_gas_phase(gp, gp["number"], gp["use"])
+    elif parts["kind"] == "equi":
         L.append("EQUILIBRIUM_PHASES 1")
         for n, si, m in parts["equi"]:
             L.append(" %s %s %s" % (n, cg.fmt(si), cg.fmt(m)))
@@ -352,16 +437,7 @@ def finish(parts):
             L.append(" %s 0 0.05" % m)
     else:
         gp = parts["gp"]
-        L.append("GAS_PHASE 1")
-        L.append(" -fixed_pressure" if gp["type"] == "P" else " -fixed_volume")
-        if gp["type"] == "P":
-            L.append(" -pressure %s" % cg.fmt(gp["pressure"]))
-        L.append(" -volume %s" % cg.fmt(gp["volume"]))
-        L.append(" -temperature %s" % cg.fmt(gp["temp"]))
-        if gp["equilibrate"]:
-            L.append(" -equilibrate 1")
-        for n, p0 in gp["comps"]:
-            L.append(" %s %s" % (n, "" if gp["equilibrate"] else cg.fmt(p0)))
+        L += render_gas_phase(gp)
         if parts["minerals"]:
             L.append("EQUILIBRIUM_PHASES 1")
             for m in parts["minerals"]:
@@ -382,6 +458,10 @@ def finish(parts):
         items.append('SYS("%s")' % e)
     L.append("USER_PUNCH 1\n -headings " + " ".join(heads) + "\n -start\n 10 PUNCH " + ", ".join(items) + "\n -end")
     L.append("END")
+    if parts["kind"] == "multi":
+        for k in parts["order"]:
+            gp = parts["phases"][k]
+            L.append("USE solution %d\nUSE gas_phase %d\nEND" % (gp["use"], gp["number"]))
     parts["input"] = "\n".join(L) + "\n"
     return parts
 
@@ -433,7 +513,7 @@ def check_case(case, ctx):
         if n not in gases_db:
             raise Violation("harness", "gas %s not found in the database text" % n)
     crit = [gases_db[n].has_crit for n in names]
-    if any(crit) and not all(crit):
+    if case["kind"] != "multi" and any(crit) and not all(crit):
         raise Discard("mixed_ideal_pr")          # excluded by construction (engine error by documentation)
     pr = all(crit)
     I = lib.fresh(case["db"])
@@ -449,6 +529,8 @@ def check_case(case, ctx):
         I.close()
     isoln = [r for r in rows if r["state"] == "i_soln"]
     react = [r for r in rows if r["state"] == "react"]
+    if case["kind"] == "multi":
+        return check_multi(case, isoln, react, names, gases_db, kij, ctx)
     if len(isoln) != 1 or not react:
         raise Violation("rows", "expected one i_soln row and >=1 react rows, got states %r" % [r["state"] for r in rows])
     classes = ["db=" + case["db"], "eos=" + ("PR" if pr else "ideal"), "kind=" + case["kind"], "ngas=%d" % len(names)]
@@ -469,6 +551,33 @@ def check_case(case, ctx):
     else:
         for k, r in enumerate(react):
             check_gas_row(case, r, isoln[0], names, G, kij, pr, info, ctx, k)
+    return {"nontrivial": info["nt"], "classes": sorted(set(info["classes"]))}
+
+
+def check_multi(case, isoln, react, names, gases_db, kij, ctx):
+    """every gas phase defined in the common simulation is judged by the clauses of a single phase, with its own data"""
+    # the defining simulation itself reacts the first solution with the first gas phase it defines (implicit use, nothing is
+    # saved); that row is not judged, the rows of the explicit USE simulations are
+    if len(isoln) != 2 or len(react) != len(case["phases"]) + 1:
+        raise Violation("rows", "expected 2 i_soln rows and %d react rows, got %d / %d" % (len(case["phases"]) + 1, len(isoln), len(react)))
+    react = react[1:]
+    info = {"nt": False, "classes": ["db=" + case["db"], "kind=multi", "nphases=%d" % len(case["phases"])]}
+    kinds = set()
+    for r, k in zip(react, case["order"]):
+        gp = case["phases"][k]
+        sub = [c[0] for c in gp["comps"]]
+        crit = [gases_db[n].has_crit for n in sub]
+        if any(crit) and not all(crit):
+            raise Discard("mixed_ideal_pr")
+        kinds.add("PR" if all(crit) else "ideal")
+        r2 = {key: v for key, v in r.items() if not (len(key) > 1 and key[0] in "npfse" and key[1:].isdigit())}
+        for j, n in enumerate(sub):
+            i = names.index(n)
+            for c in "npfse":
+                r2["%s%d" % (c, j)] = r["%s%d" % (c, i)]
+        pcase = dict(case, gp=gp, sol=case["sols"][gp["use"] - 1])
+        check_gas_row(pcase, r2, isoln[gp["use"] - 1], sub, [gases_db[n] for n in sub], kij, all(crit), info, ctx, 0)
+    info["classes"].append("multi_eos=" + "+".join(sorted(kinds)))
     return {"nontrivial": info["nt"], "classes": sorted(set(info["classes"]))}
 
 
